@@ -490,7 +490,7 @@ func SignerField(m M) string {
 		return "receiver"
 	case "Send":
 		return "from"
-	case "Grant", "Revoke":
+	case "Grant", "Revoke", "FGrant", "FRevoke":
 		return "granter"
 	}
 	return "signer"
